@@ -47,12 +47,14 @@ DECIDING = {
     "spawn_tg": "children spawned through a task group (inherit the spawner's current context)",
     "spawn_service": "children started with start_service_task",
     "spawn_factory": "children started through a task factory",
+    "spawn_tg_outliving_block": "children spawned into a task group that outlives the block they were spawned in",
     "constructions_checked": "Context() constructions whose parent was compared with the current context",
     "teardown_callback_observations": "current_context() observed inside teardown callbacks",
     "empty_stack_checks": "observations expecting NoCurrentContext",
     "component_construction_cases": "component trees constructing contexts inside prepare()/start()",
 }
-ASSUMPTIONS = ["a task never leaves a context while a child it spawned inside it is still running (structured use)"]
+ASSUMPTIONS = ["children that enter contexts of their own finish before their spawner leaves the context they were spawned in; "
+               "children that outlive it only observe current_context()"]
 
 
 class Marker(Exception):
@@ -78,8 +80,14 @@ def gen_prog(rng: Any, depth: int, budget: list[int], in_ctx: bool) -> list[Any]
             how = rng.choice(["implicit", "implicit", "implicit", "explicit_shared"])
             steps.append(["enter", how, gen_prog(rng, depth + 1, budget, True), rng.choice(LEAVES)])
         elif depth < 5:
-            kind = rng.choice(["tg", "tg", "service", "factory"]) if in_ctx else "tg"
-            steps.append(["spawn", kind, gen_prog(rng, depth + 1, budget, in_ctx)])
+            kind = rng.choice(["tg", "tg", "service", "factory", "tg_outer"]) if in_ctx else "tg"
+            if kind == "tg_outer":
+                # a task spawned into a task group that outlives the current block: it keeps what it inherited,
+                # whatever the spawner does afterwards (its body only observes: checks, yields, sleeps)
+                body = [rng.choice([["check"], ["yield", rng.randint(1, 3)], ["sleep", rng.choice([0.5, 1, 2])], ["check"]]) for _ in range(rng.randint(2, 6))]
+                steps.append(["spawn", kind, body])
+            else:
+                steps.append(["spawn", kind, gen_prog(rng, depth + 1, budget, in_ctx)])
         else:
             steps.append(["check"])
     return steps
@@ -105,6 +113,7 @@ class Interp:
         self.log: list[str] = []
         self.nested_now: dict[int, int] = {}  # top-level task id -> current nesting depth
         self.shared: Any = None
+        self.outer_tg: dict[int, Any] = {}
         self.seq = 0
 
     def inc(self, k: str, n: int = 1) -> None:
@@ -236,7 +245,17 @@ class Interp:
                 self.inc(f"spawn_{how}")
                 spawner_top = stack[-1] if stack else None
                 ctid = f"{tid}.{self.seq}"
-                if how == "tg" or spawner_top is None:
+                if how == "tg_outer" and self.outer_tg.get(root_tid) is not None:
+                    inherited = list(stack)
+
+                    async def outliving_child(ctid: Any = ctid, body: Any = body, inherited: Any = inherited) -> None:
+                        self.check(ctid, inherited, "first-observation-in-spawned-task")
+                        await self.run(ctid, body, inherited, root_tid)
+                        self.check(ctid, inherited, "end-of-outliving-spawned-task")
+
+                    self.outer_tg[root_tid].start_soon(outliving_child)
+                    self.inc("spawn_tg_outliving_block")
+                elif how in ("tg", "tg_outer") or spawner_top is None:
                     async def child() -> None:
                         # inherits the spawner's current context; its own pushes and pops are its own
                         cstack = list(stack)
@@ -304,11 +323,13 @@ class Interp:
     async def top(self, i: int, t: dict[str, Any], stack: list[Any]) -> None:
         stack = list(stack)
         self.check(i, stack, "task-start")
-        try:
-            await self.run(i, t["prog"], stack, i)
-        except Exception as e:
-            self.bad("current-program-crashed", f"task {i} crashed: {describe_exc(e)}")
-        self.check(i, stack, "task-end")
+        async with create_task_group() as outer:
+            self.outer_tg[i] = outer
+            try:
+                await self.run(i, t["prog"], stack, i)
+            except Exception as e:
+                self.bad("current-program-crashed", f"task {i} crashed: {describe_exc(e)}")
+            self.check(i, stack, "task-end")
 
 
 def _leaves(e: BaseException) -> list[BaseException]:
